@@ -8,10 +8,15 @@ src = os.environ.get('SRC_ROOT', '/tmp/mut') + '/%s.out' % pid
 patch, demo, meta = [os.path.join(src, n % suf) for n in ('patch%s.diff', 'demo%s.rs', 'meta%s.json')]
 demosh = os.path.join(src, 'demo%s.sh' % suf)
 use_sh = os.path.exists(demosh) and (pid in ('C19', 'C20') or not os.path.exists(demo))
+group = None
+if not pid.startswith('C'):
+    # cross-cutting round: the agent names the property in its meta file
+    group = pid
+    pid = json.load(open(meta))['property']
 if not os.path.exists(patch) or not (os.path.exists(demo) or use_sh):
     print('missing files for', pid, suf); sys.exit(2)
 if use_sh:
-    c = subprocess.run(['/verif/tools/confirm_seed_sh.sh', pid, patch, demosh], stdout=subprocess.PIPE, stderr=subprocess.STDOUT, text=True).stdout
+    c = subprocess.run(['/verif/tools/confirm_seed_sh.sh', group or pid, patch, demosh], stdout=subprocess.PIPE, stderr=subprocess.STDOUT, text=True).stdout
     demo = demosh
 else:
     c = subprocess.run(['/verif/tools/confirm_seed.sh', patch, demo], stdout=subprocess.PIPE, stderr=subprocess.STDOUT, text=True).stdout
@@ -26,6 +31,11 @@ caught = [l for l in t.splitlines() if l.startswith('CAUGHT-BY:')]
 caught = caught[0][len('CAUGHT-BY:'):].split() if caught else []
 base = int(os.environ.get('SEED_BASE', '0'))
 name = pid + '-%d' % (base + (2 if suf else 1))
+if group:
+    k = 1
+    while os.path.exists('/verif/seeded/%s-%d' % (pid, k)):
+        k += 1
+    name = '%s-%d' % (pid, k)
 dst = '/verif/seeded/%s' % name
 os.makedirs(dst, exist_ok=True)
 shutil.copy(patch, os.path.join(dst, 'patch.diff'))
@@ -40,6 +50,8 @@ try:
 except Exception as e:
     m = {'note': 'agent meta unreadable: %s' % e}
 m['property'] = pid
+if group:
+    m['round4_group'] = group
 m['confirmed_by_us'] = {'script': 'tools/confirm_seed.sh', 'output': c.strip().splitlines()[-3:]}
 m['checks_run'] = 'tools/try_patch.sh (all 20 quick checks on /repo with the patch applied, then git checkout -- .)'
 m['caught_by'] = caught
